@@ -9,7 +9,8 @@
 (* Dev = {} is the intended design: TLC shows Complete for every tree/labeling/split.      *)
 EXTENDS Naturals, Sequences, FiniteSets, TLC
 CONSTANTS MaxN,      \* link trees with 1..MaxN visits (enumerating Init)
-          Dev        \* subset of {"PathLen", "SkipCount"}
+          Dev,       \* subset of {"PathLen", "SkipCount"}
+          MaxScript  \* adversarial responder: scripts of up to MaxScript items
 
 None == [c |-> 0, followed |-> FALSE, blk |-> FALSE]
 NoRecent == [v |-> 0, ok |-> FALSE, usedRemote |-> FALSE]
@@ -17,6 +18,8 @@ NoRecent == [v |-> 0, ok |-> FALSE, usedRemote |-> FALSE]
 VARIABLES N, par, dep, cid, Sl0, Sr, userSkip,       \* the case (never changes)
   ignore,    \* do-not-send-cids supplied by the caller (labels)
   keyed,     \* the request carries a dedup-by-key extension (no effect on a single request)
+  adv,       \* the responder is adversarial: it answers with `script` whatever it holds
+  script,    \* sequence of [c, followed, blk]; c = N+1 is a block foreign to the DAG
   st,        \* [V -> {"todo","ok","fail"}] requestor traversal status per visit
   store,     \* requestor's local store (labels)
   rec,       \* traversal record: sequence of [v, ok]
@@ -33,8 +36,8 @@ VARIABLES N, par, dep, cid, Sl0, Sr, userSkip,       \* the case (never changes)
   respLive, errs, delivered, fatal, phase,
   devUsed    \* ghost: deviations whose code path differed from the design in this behaviour
 
-caseVars == <<N, par, dep, cid, Sl0, Sr, userSkip, ignore, keyed>>
-vars == <<N, par, dep, cid, Sl0, Sr, userSkip, ignore, keyed, st, store, rec, recent, rq, lastc, online, ver, unf, reqSent, reqSkip,
+caseVars == <<N, par, dep, cid, Sl0, Sr, userSkip, ignore, keyed, adv, script>>
+vars == <<N, par, dep, cid, Sl0, Sr, userSkip, ignore, keyed, adv, script, st, store, rec, recent, rq, lastc, online, ver, unf, reqSent, reqSkip,
           wire, wireAll, respLive, errs, delivered, fatal, phase, devUsed>>
 V == 1..N
 
@@ -129,7 +132,7 @@ EnumInit ==
   /\ dep \in [1..N -> 0..(2*N)] /\ DepOK(N, par, dep)
   /\ cid \in [1..N -> 1..N] /\ CidOK(N, par, dep, cid)
   /\ Sl0 \in SUBSET { cid[i] : i \in 1..N } /\ Sr \in SUBSET { cid[i] : i \in 1..N }
-  /\ userSkip = 0 /\ ignore = {} /\ keyed = FALSE
+  /\ userSkip = 0 /\ ignore = {} /\ keyed = FALSE /\ adv = FALSE /\ script = <<>>
   /\ RunInit
 
 \* the same cases with every combination of the caller-supplied extensions
@@ -139,7 +142,19 @@ EnumInitOpts ==
   /\ dep \in [1..N -> 0..(2*N)] /\ DepOK(N, par, dep) /\ \A i \in 2..N : dep[i] = dep[par[i]] + 1
   /\ cid \in [1..N -> 1..N] /\ CidOK(N, par, dep, cid)
   /\ Sl0 \in SUBSET { cid[i] : i \in 1..N } /\ Sr \in SUBSET { cid[i] : i \in 1..N }
-  /\ userSkip \in 0..(N+1) /\ ignore \in SUBSET { cid[i] : i \in 1..N } /\ keyed \in BOOLEAN
+  /\ userSkip \in 0..(N+1) /\ ignore \in SUBSET { cid[i] : i \in 1..N } /\ keyed \in BOOLEAN /\ adv = FALSE /\ script = <<>>
+  /\ RunInit
+
+\* C01: any link tree and local store, any script of metadata/blocks a responder may send
+Alphabet(n, c) == { [c |-> x, followed |-> f, blk |-> b] : x \in { c[i] : i \in 1..n } \cup {n + 1}, f \in BOOLEAN, b \in BOOLEAN }
+AdvInit ==
+  /\ N \in 1..MaxN
+  /\ par \in [1..N -> 0..N] /\ ParOK(N, par)
+  /\ dep \in [1..N -> 0..(2*N)] /\ DepOK(N, par, dep) /\ \A i \in 2..N : dep[i] = dep[par[i]] + 1
+  /\ cid \in [1..N -> 1..N] /\ CidOK(N, par, dep, cid)
+  /\ Sl0 \in SUBSET { cid[i] : i \in 1..N } /\ Sr = {}
+  /\ userSkip = 0 /\ ignore = {} /\ keyed = FALSE /\ adv = TRUE
+  /\ script \in UNION { [1..k -> Alphabet(N, cid)] : k \in 0..MaxScript }
   /\ RunInit
 
 Fatal(msg) == /\ fatal' = msg /\ phase' = "done"
@@ -192,7 +207,7 @@ LoadStep ==
         /\ ver' = IF Len(rec1) > 0 THEN 1 ELSE 0
         /\ LET loaded == NBlocks
                sk == IF userSkip > loaded THEN userSkip ELSE loaded
-               items == RespItems(IF "SkipCount" \in Dev THEN sk ELSE userSkip)
+               items == IF adv THEN script ELSE RespItems(IF "SkipCount" \in Dev THEN sk ELSE userSkip)
            IN /\ reqSkip' = sk
               /\ wire' = items /\ wireAll' = items /\ respLive' = TRUE
               /\ devUsed' = IF "SkipCount" \in Dev /\ items # RespItems(userSkip)
@@ -257,6 +272,11 @@ NoRetransmit == \A k \in 1..Len(wireAll) :
    wireAll[k].blk => /\ k > (IF "SkipCount" \in Dev THEN reqSkip ELSE userSkip)
                      /\ wireAll[k].c \notin ignore
                      /\ ~ \E k2 \in 1..(k-1) : wireAll[k2].blk /\ wireAll[k2].c = wireAll[k].c
+\* C01: whatever the responder sends, only genuine blocks of visits the traversal reached are stored or delivered
+Sound == /\ store \subseteq Sl0 \cup { cid[i] : i \in V }
+         /\ store \ Sl0 \subseteq { cid[i] : i \in { j \in V : st[j] = "ok" } }
+         /\ \A k \in 1..Len(delivered) : Visited(delivered[k]) /\ (cid[delivered[k]] \in store)
+         /\ \A k \in 1..(Len(delivered) - 1) : delivered[k] < delivered[k+1]
 \* a running request can always make a step (no hang)
 NoHang == (phase = "run" /\ NextVisit # 0) => ENABLED (VerifyStep \/ LoadStep \/ Ingest \/ Terminal)
 =============================================================================
